@@ -185,6 +185,23 @@ PROPS = {
              "representation step. Exhaustive over indicators and period numbers for one leap and one common year.",
         note="Years other than the two representatives are covered only to the extent the macros are year-independent text operations. "
              "Known findings: three wrong documented examples. Found and repaired: unmapped 2-1-19-21 (see C32)."),
+
+    "C20": dict(
+        claimed=True, design="§3 C20",
+        technique="set comparison of coded rejections reachable (call graph) from the pandas validator vs the DuckDB loaders; regular-language symmetric difference (product automata with witnesses) of the two sides' temporal patterns; CFG ordering of the duplicate check",
+        text="Decides agreement of the two sibling validators at the level where it is a property of the code's shape: both perform the "
+             "same rejecting checks, both check duplicates on cast/normalised values, and the regular languages they accept for Date, "
+             "Time and Time_Period are compared exactly, with a witness string for every difference. Automata quantify over all strings.",
+        note="Dates/times are compared modulo digit ranges (Python validates ranges after its regex). Numeric types are not compared. "
+             "Four known findings (extra columns; Date, Time and Time_Period language differences)."),
+    "C18": dict(
+        claimed=True, design="§3 C18",
+        technique="CFG must-pass-through on the three loaders; per-type SQL of the CSV and DataFrame/Parquet SELECT builders obtained by lowering both builders over type x nullable x source type, compared for rejecting guards and for the Number conversion chain; header-order binding via C33",
+        text="Decides the structural conditions for the three input forms to behave alike: one schema builder and one post-load "
+             "validation on every loader's success path, failures mapped and the table dropped, identical rejecting guards per "
+             "component type in the two SELECT builders, Number always converted from text, CSV columns bound by header order.",
+        note="Does not decide equality of results for accepted inputs. Known finding: the Integer integrality guard exists only on the "
+             "CSV path."),
 }
 
 NA_REASONS = {
